@@ -6,6 +6,7 @@ import (
 	"errors"
 	"fmt"
 	"io"
+	"reflect"
 	"strconv"
 	"strings"
 	"time"
@@ -454,6 +455,24 @@ func registerMeta() {
 		}
 		return errClass(config.Decode(build(v), resultFor(a["target"])))
 	})
+	register("config-decodestring-ptr", "config.decodeString(f, t, data) for a pointer-typed data (reflect prefix)", func(a map[string]string) (string, string) {
+		v, ok := parseVS(a["in"])
+		if !ok {
+			return clsSkip, ""
+		}
+		data := build(v)
+		if data == nil || reflect.TypeOf(data).Kind() != reflect.Ptr {
+			return clsSkip, ""
+		}
+		out, err := config.VerifDecodeString(reflect.TypeOf(data), reflect.TypeOf(0), data)
+		if err != nil {
+			return clsOK, "deref" // reached the string parsing behind the pointer
+		}
+		if out != nil && reflect.TypeOf(out) == reflect.TypeOf(data) && reflect.ValueOf(out).Pointer() == reflect.ValueOf(data).Pointer() {
+			return clsOK, "unchanged"
+		}
+		return clsOK, "deref"
+	})
 	register("config-normalize", "config.Normalize(value)", func(a map[string]string) (string, string) {
 		v, ok := parseVS(a["in"])
 		if !ok {
@@ -633,6 +652,23 @@ func genMeta(r *runner) {
 		}
 	}
 	r.res.Hit("config:exhaustive-key-x-value")
+	// the reflect prefix of decodeString against the Lean model of reflect: every scalar behind 1..3 pointers / interfaces
+	for _, sc := range scalars {
+		v := sc
+		for depth := 0; depth < 3; depth++ {
+			e := v
+			v = VS{T: "p", E: &e}
+			c := mk("config-decodestring-ptr", "in", js(v))
+			if rv, ok := rvOf(build(v)); ok {
+				r.doM("ptrprefix v="+rv, c)
+			}
+		}
+		if sc.T == "np" {
+			if rv, ok := rvOf(build(sc)); ok {
+				r.doM("ptrprefix v="+rv, mk("config-decodestring-ptr", "in", js(sc)))
+			}
+		}
+	}
 	for i := 0; i < n; i++ {
 		t := []string{"m", "m", "mi", "ms"}[r.rnd.Intn(4)]
 		v := mapOf(t, configKeys, r.rnd.Intn(6))
@@ -708,4 +744,49 @@ func registerAll() {
 	gen("streams", genStreams)
 	gen("cron", genCron)
 	gen("scaling", genScaling)
+}
+
+// rvOf describes a Go value the way the Lean reflect model sees it (KitModel/NoPanicReflect.lean RV).
+func rvOf(x any) (string, bool) {
+	if x == nil {
+		return "", false
+	}
+	var rec func(v reflect.Value, depth int) (string, bool)
+	leaf := map[reflect.Kind]string{reflect.Bool: "bool", reflect.String: "string", reflect.Struct: "struct", reflect.Array: "array",
+		reflect.Float32: "float", reflect.Float64: "float"}
+	rec = func(v reflect.Value, depth int) (string, bool) {
+		if depth > 50 {
+			return "", false
+		}
+		if !v.IsValid() {
+			return "zero", true
+		}
+		switch v.Kind() {
+		case reflect.Ptr:
+			if v.IsNil() {
+				return "nil:ptr", true
+			}
+			s, ok := rec(v.Elem(), depth+1)
+			return "ptr(" + s + ")", ok
+		case reflect.Interface:
+			if v.IsNil() {
+				return "nil:iface", true
+			}
+			s, ok := rec(v.Elem(), depth+1)
+			return "iface(" + s + ")", ok
+		case reflect.Map, reflect.Slice, reflect.Func, reflect.Chan:
+			if v.IsNil() {
+				return "nil:" + v.Kind().String(), true
+			}
+			return "leaf:" + v.Kind().String(), true
+		}
+		if v.CanInt() || v.CanUint() {
+			return "leaf:int", true
+		}
+		if n, ok := leaf[v.Kind()]; ok {
+			return "leaf:" + n, true
+		}
+		return "leaf:other", true
+	}
+	return rec(reflect.ValueOf(x), 0)
 }
